@@ -140,6 +140,11 @@ mut('C01-flag-axis', 'C01', 'pb_bss/initializer/deterministic.py',
 mut('C01-weight-l1-axis', 'C01', D + 'mixture_model_utils.py',
     "            ord=1,\n            axis=-2,\n            eps=1e-10,\n            eps_style='where',\n        )\n\n    return weight\n\n\ndef _estimate",
     "            ord=1,\n            axis=-1,\n            eps=1e-10,\n            eps_style='where',\n        )\n\n    return weight\n\n\ndef _estimate", expect='l1-class-axis')
+mut('C01-unsqueeze-descending', 'C01', 'pb_bss/utils.py', "    for p in sorted(axis):\n        shape.insert(p, 1)", "    for p in sorted(axis, reverse=True):\n        shape.insert(p, 1)", expect=None)
+s_ = None
+mut('C01-unsqueeze-no-modulo', 'C01', 'pb_bss/utils.py', "    axis = [a % future_ndim for a in axis]", "    axis = [a % len(shape) for a in axis]", expect='insertion')
+mut('C01-unsqueeze-args-swapped', 'C01', D + 'gcacgmm.py', "                weight=unsqueeze(self.weight, self.weight_constant_axis),\n                log_pdf=(", "                weight=unsqueeze(self.weight, (-1,)),\n                log_pdf=(", expect='unsqueeze-args')
+mut('C08-watson-unweighted-denominator', 'C08', D + 'complex_watson.py', "            denominator = np.array(y.shape[-2])", "            denominator = np.array(y.shape[-1])", expect='unweighted-normaliser')
 mut('C01-cacg-quadratic-form-unfloored', 'C01', D + 'complex_angular_central_gaussian.py',
     "        quadratic_form = np.maximum(\n            np.abs(\n                np.einsum(\n                    # '...dt,...kde,...ke,...kge,...gt->...kt',\n                    '...dt,...de,...e,...ge,...gt->...t',\n                    y.conj(),\n                    self.covariance_eigenvectors,\n                    1 / self.covariance_eigenvalues,\n                    self.covariance_eigenvectors.conj(),\n                    y,\n                    optimize='optimal',\n                )\n            ),\n            np.finfo(y.dtype).tiny,\n        )",
     "        quadratic_form = np.abs(\n                np.einsum(\n                    # '...dt,...kde,...ke,...kge,...gt->...kt',\n                    '...dt,...de,...e,...ge,...gt->...t',\n                    y.conj(),\n                    self.covariance_eigenvectors,\n                    1 / self.covariance_eigenvalues,\n                    self.covariance_eigenvectors.conj(),\n                    y,\n                    optimize='optimal',\n                )\n            )", expect='R-SIGN')
@@ -193,6 +198,9 @@ mut('C07-bingham-norm-axis', 'C07', D + 'complex_bingham.py', "        return 2 
 mut('C07-cacg-covariance-transposed', 'C07', D + 'complex_angular_central_gaussian.py', "            '...wx,...x,...zx->...wz',\n            self.covariance_eigenvectors,\n            self.covariance_eigenvalues,\n            self.covariance_eigenvectors.conj(),\n            optimize='greedy',\n        )\n\n    @property\n    def log_determinant",
     "            '...wx,...x,...zx->...zw',\n            self.covariance_eigenvectors,\n            self.covariance_eigenvalues,\n            self.covariance_eigenvectors.conj(),\n            optimize='greedy',\n        )\n\n    @property\n    def log_determinant", expect=None)
 mut('C07-diag-postinit-type', 'C07', D + 'gaussian.py', "            _compute_log_det_cholesky(pc, 'diag', D),", "            _compute_log_det_cholesky(pc, 'spherical', D),", expect='sklearn-helpers')
+mut('C07-watson-real-part-only', 'C07', D + 'complex_watson.py', "        result = result.real ** 2 + result.imag ** 2", "        result = result.real ** 2", expect='Im(w^H z)', props=['C07', 'C03'])
+mut('C07-cacg-logdet-dropped', 'C07', D + 'complex_angular_central_gaussian.py', "        log_pdf -= self.log_determinant[..., None]\n", "", expect='log det', props=['C07', 'C03'])
+mut('C07-gaussian-const-dropped', 'C07', D + 'gaussian.py', "                - 1 / 2 * D * np.log(2 * np.pi)\n                + self.log_det_precision_cholesky[..., None]\n                - 1 / 2 * np.einsum('...nd,...nd->...n', white_x, white_x)\n        )\n\n\n@dataclass\nclass DiagonalGaussian", "                self.log_det_precision_cholesky[..., None]\n                - 1 / 2 * np.einsum('...nd,...nd->...n', white_x, white_x)\n        )\n\n\n@dataclass\nclass DiagonalGaussian", expect='log(2 pi)')
 mut('C08-mstep-twice', 'C08', D + 'gmm.py',
     "            model = self._m_step(\n                y,\n                affiliation=affiliation,\n                saliency=saliency,\n                weight_constant_axis=weight_constant_axis,\n                covariance_type=covariance_type,\n                fixed_covariance=fixed_covariance,\n            )\n\n        return model",
     "            model = self._m_step(\n                y,\n                affiliation=affiliation,\n                saliency=saliency,\n                weight_constant_axis=weight_constant_axis,\n                covariance_type=covariance_type,\n                fixed_covariance=fixed_covariance,\n            )\n            if iteration == 0:\n                model = self._m_step(\n                    y,\n                    affiliation=model.predict(y),\n                    saliency=saliency,\n                    weight_constant_axis=weight_constant_axis,\n                    covariance_type=covariance_type,\n                    fixed_covariance=fixed_covariance,\n                )\n\n        return model", expect='R-LOOP')
